@@ -481,7 +481,7 @@ type smtResult struct {
 }
 
 func runSMT(text string, getVals []string, file string, solver string, timeoutS int) smtResult {
-	q := text + "(check-sat)\n"
+	q := "(set-logic QF_LIA)\n" + text + "(check-sat)\n"
 	if len(getVals) > 0 {
 		q += "(get-value (" + strings.Join(getVals, " ") + "))\n"
 	}
@@ -497,7 +497,13 @@ func runSMT(text string, getVals []string, file string, solver string, timeoutS 
 	out, _ := cmd.CombinedOutput()
 	r := smtResult{vals: map[string]string{}, secs: time.Since(t0).Seconds(), solver: solver}
 	s := string(out)
-	first := strings.TrimSpace(strings.SplitN(s, "\n", 2)[0])
+	first := ""
+	for _, l := range strings.Split(s, "\n") {
+		if l = strings.TrimSpace(l); l == "sat" || l == "unsat" || l == "unknown" {
+			first = l
+			break
+		}
+	}
 	switch {
 	case strings.Contains(s, "(error") && first != "unsat":
 		r.status = "error: " + lastLines(s, 2)
